@@ -822,6 +822,12 @@ func maybeZeroValue(info *types.Info, e ast.Expr) string {
 					return "reflect.ValueOf(x.Interface()) of a nil interface in the traversed value"
 				}
 			}
+			// reflect.ValueOf(v) of a variable of an interface type: nil gives the zero Value
+			if o, ok := core.ObjOf(info, call.Args[0]).(*types.Var); ok {
+				if _, isIface := o.Type().Underlying().(*types.Interface); isIface && !definedByShortDecl(info, o) {
+					return "reflect.ValueOf(" + o.Name() + ") of an interface variable that can be nil"
+				}
+			}
 		}
 	}
 	return ""
@@ -888,6 +894,28 @@ func unguardedZeroUse(rc *core.RC, fd *ast.FuncDecl, v types.Object) *ast.CallEx
 			for _, c := range conjuncts(cond) {
 				if isValidCall(c) && ifs.Body.Pos() <= call.Pos() && call.End() <= ifs.Body.End() {
 					guarded = true
+				}
+			}
+			// `!v.IsValid() || … v.Type() …`: the later operands are evaluated for a valid v only, and behind the
+			// statement v is valid when the then-branch leaves
+			ds := disjuncts(cond)
+			for i, d := range ds {
+				ue, isNot := core.Unparen(d).(*ast.UnaryExpr)
+				if !isNot || ue.Op != token.NOT || !isValidCall(ue.X) {
+					continue
+				}
+				for _, later := range ds[i+1:] {
+					if later.Pos() <= call.Pos() && call.End() <= later.End() {
+						guarded = true
+					}
+				}
+				if nb := len(ifs.Body.List); nb > 0 {
+					if _, isRet := ifs.Body.List[nb-1].(*ast.ReturnStmt); isRet {
+						gb, _ := cf.BlockOf(ifs.Cond)
+						if gb != nil && ub != nil && cf.Dominates(gb, ub) && call.Pos() > ifs.End() {
+							guarded = true
+						}
+					}
 				}
 			}
 			return true
@@ -2567,4 +2595,17 @@ func c06r20(rc *core.RC) {
 	if nret < 2 {
 		rc.Unknown("decoder.castValue/returns", fd.Pos(), "found %d returns of a value in castValue, fewer than the 2 confirmed by hand", nret)
 	}
+}
+
+// definedByShortDecl reports whether o is introduced by `o := expr` (its value is what the expression makes, e.g. an
+// interface built from a type word and a data word); parameters and `var o T` can hold nil.
+func definedByShortDecl(info *types.Info, o types.Object) bool {
+	for id, d := range info.Defs {
+		if d == o && id.Obj != nil {
+			if as, ok := id.Obj.Decl.(*ast.AssignStmt); ok && as.Tok == token.DEFINE {
+				return true
+			}
+		}
+	}
+	return false
 }
